@@ -442,3 +442,42 @@ Proof.
   intros R Hr P ND TC. apply (renumber_general false rnd order fuel t t' R P ND TC).
   apply (randomize_random_no_zero rnd order fuel t t' Hr R).
 Qed.
+
+(* ---- look-ups after CleanSections answer from the list as it is then: a non-marker component is
+   found exactly as before (the first one with its id among the non-markers), a marker's id is found
+   only if a non-marker carries the same id ---- *)
+Lemma find_pos_some_hwc id : forall l k, 
+  match find_pos id l k with Some (_, h) => find (fun h => hId h =? id) l = Some h | None => find (fun h => hId h =? id) l = None end.
+Proof.
+  induction l as [|h l IH]; intros k; cbn [find_pos find]; [reflexivity|].
+  destruct (hId h =? id); [reflexivity|apply IH].
+Qed.
+
+Lemma find_hwc_find id t : find_hwc id t = find (fun h => hId h =? id) (tpHWc t).
+Proof.
+  unfold find_hwc. pose proof (find_pos_some_hwc id (tpHWc t) 0) as H.
+  destruct (find_pos id (tpHWc t) 0) as [[k h]|]; symmetry; exact H.
+Qed.
+
+Lemma find_filter_comm {A} (p q : A -> bool) : forall l,
+  find p (filter q l) = find (fun x => p x && q x) l.
+Proof.
+  induction l as [|x l IH]; [reflexivity|]. cbn [filter find].
+  destruct (q x) eqn:Eq; cbn [find]; destruct (p x); cbn [andb]; auto.
+Qed.
+
+Theorem lookups_after_clean t id :
+  find_hwc id (clean_sections t) = find (fun h => (hId h =? id) && negb (is_marker h)) (tpHWc t).
+Proof.
+  rewrite find_hwc_find, clean_is_filter. cbn [tpHWc]. apply find_filter_comm.
+Qed.
+
+Corollary lookup_kept_after_clean t id h :
+  find_hwc id t = Some h -> is_marker h = false -> find_hwc id (clean_sections t) = Some h.
+Proof.
+  rewrite lookups_after_clean, find_hwc_find. intros Hf Hm.
+  induction (tpHWc t) as [|x l IH]; [discriminate|]. cbn [find] in *.
+  destruct (hId x =? id) eqn:E.
+  - injection Hf as ->. rewrite Hm. reflexivity.
+  - cbn [andb]. apply IH. exact Hf.
+Qed.
